@@ -13,16 +13,14 @@ Lemma hget_alloc_new (h : heap T) v : hget (fst (halloc h v)) (snd (halloc h v))
 Proof. unfold hget, halloc. simpl. rewrite app_nth2 by lia. now rewrite Nat.sub_diag. Qed.
 Lemma hget_hset_other (h : heap T) l l' v : l <> l' -> (l < List.length h)%nat -> hget (hset h l v) l' = hget h l'.
 Proof.
-  intros Hne Hl. unfold hget, hset.
-  destruct (Nat.lt_ge_cases l' l) as [Hlt|Hge].
-  - rewrite app_nth1 by (rewrite firstn_length; lia). rewrite nth_firstn. destruct (Nat.ltb_spec l' l); [reflexivity|lia].
-  - rewrite app_nth2 by (rewrite firstn_length; lia). rewrite firstn_length, Nat.min_l by lia.
-    destruct (l' - l)%nat as [|k] eqn:E; [lia|]. simpl. rewrite nth_skipn. f_equal. lia.
+  unfold hget, hset. revert l l'. induction h as [|x h IH]; intros l l' Hne Hl; [simpl in Hl; lia|].
+  destruct l as [|l]; destruct l' as [|l']; try lia; simpl; try reflexivity.
+  apply IH; simpl in Hl; lia.
 Qed.
 Lemma hget_hset_same (h : heap T) l v : (l < List.length h)%nat -> hget (hset h l v) l = v.
 Proof.
-  intros Hl. unfold hget, hset. rewrite app_nth2 by (rewrite firstn_length; lia).
-  rewrite firstn_length, Nat.min_l by lia. now rewrite Nat.sub_diag.
+  unfold hget, hset. revert l. induction h as [|x h IH]; intros l Hl; [simpl in Hl; lia|].
+  destruct l as [|l]; simpl; [reflexivity|]. apply IH. simpl in Hl. lia.
 Qed.
 End Heap.
 
@@ -57,8 +55,8 @@ Theorem acc_roundtrip (h : heap T) (a b : acc) : (a_loc a < List.length h)%nat -
 Proof.
   intros Hl Hm. cbv beta zeta. unfold acc_state_dict.
   destruct (halloc h (hget h (a_loc a))) as [h1 l] eqn:E. cbn [fst snd].
-  unfold acc_load_state_dict. cbn. rewrite Hm, String.eqb_refl. cbn.
-  eexists. split; [reflexivity|]. split; [exact Hm|]. cbn.
+  unfold acc_load_state_dict. cbn. unfold pystr_eqb. rewrite Hm, String.eqb_refl. cbn.
+  eexists. split; [reflexivity|]. split; [reflexivity|]. cbn.
   assert (h1 = fst (halloc h (hget h (a_loc a))) /\ l = snd (halloc h (hget h (a_loc a)))) as [-> ->] by now rewrite E.
   apply hget_alloc_new.
 Qed.
@@ -75,16 +73,16 @@ Theorem acc_load_rejects_other_mechanism (h : heap T) (a b : acc) : a_mech b <> 
   acc_load_state_dict b (Some (snd (acc_state_dict h a))) = Err ValueError.
 Proof.
   intros Hm. unfold acc_state_dict. destruct (halloc h (hget h (a_loc a))) as [h1 l]. cbn.
-  unfold acc_load_state_dict. cbn. destruct (String.eqb_spec (a_mech b) (a_mech a)) as [E|E]; [contradiction|reflexivity].
+  unfold acc_load_state_dict. cbn. unfold pystr_eqb. destruct (String.eqb_spec (a_mech b) (a_mech a)) as [E|E]; [contradiction|reflexivity].
 Qed.
 
 (* through torch.save / torch.load *)
 Theorem acc_value_roundtrip (hs : hist T) (m : pystr) : acc_load_value m (Some (acc_save_value (hs, m))) = Ok hs.
-Proof. unfold acc_save_value, acc_load_value. cbn. unfold acc_load_state_dict. cbn. rewrite String.eqb_refl. reflexivity. Qed.
+Proof. unfold acc_save_value, acc_load_value. cbn. unfold acc_load_state_dict. cbn. unfold pystr_eqb. rewrite String.eqb_refl. reflexivity. Qed.
 Theorem acc_value_other_mechanism (hs : hist T) (m m' : pystr) : m' <> m -> acc_load_value m' (Some (acc_save_value (hs, m))) = Err ValueError.
 Proof.
   intros H. unfold acc_save_value, acc_load_value. cbn. unfold acc_load_state_dict. cbn.
-  destruct (String.eqb_spec m' m); [contradiction|reflexivity].
+  unfold pystr_eqb. destruct (String.eqb_spec m' m); [contradiction|reflexivity].
 Qed.
 Theorem acc_value_empty (m : pystr) : acc_load_value (T:=T) m (Some []) = Err ValueError /\ acc_load_value (T:=T) m None = Err ValueError.
 Proof. split; reflexivity. Qed.
@@ -93,6 +91,7 @@ End Acc.
 Section Sys.
 Context {T : Type} {N : Num T} {P I : Type}.
 Notation sys := (sys T P I).
+Local Opaque acc_save_value acc_load_value noise_state_dict noise_load_state_dict clip_state_dict clip_load_state_dict.
 
 (* load (save y) into a freshly constructed system y0 whose live hyper-parameters equal y's *)
 Theorem load_save_roundtrip (y y0 : sys) : y_mech y0 = y_mech y ->
@@ -103,7 +102,7 @@ Proof.
   rewrite Hm. rewrite acc_value_roundtrip. cbn.
   rewrite (noise_restore_exact_partial (y_ns y) (y_ns y0) Hn).
   rewrite (clip_restore_exact_partial (y_cs y) (y_cs y0) Hc).
-  destruct y; reflexivity.
+  destruct y, y0; cbn in *. subst. reflexivity.
 Qed.
 (* whatever the flags and the live values: module parameters and accountant history are restored *)
 Theorem load_save_ledger (y y0 : sys) (o n c : bool) : y_mech y0 = y_mech y ->
@@ -139,8 +138,8 @@ Theorem resume_refines_uninterrupted (fresh : sys) (bs1 bs2 : list B) :
 Proof.
   intros y1 Hn Hc. exists y1. split.
   - apply load_save_roundtrip; auto.
-    subst y1. unfold run. clear. revert fresh. induction bs1 as [|b bs IH]; intros fresh; [reflexivity|].
-    cbn [fold_left]. rewrite IH. reflexivity.
+    subst y1. unfold run. generalize fresh. clear. induction bs1 as [|b bs IH]; intros fresh; [reflexivity|].
+    cbn [fold_left]. rewrite <- IH. reflexivity.
   - subst y1. unfold run. now rewrite fold_left_app.
 Qed.
 End Sys.
